@@ -3,7 +3,7 @@ import io
 from itertools import chain
 from os import PathLike
 from typing import Union, Iterable, Sequence, Any, Dict, List, Tuple, Optional
-from contextlib import closing
+from contextlib import closing, nullcontext
 import openpyxl
 
 try:
@@ -21,10 +21,18 @@ from pdtable.io._excel_write_helper import DEFAULT_STYLE_SPEC, _pack_tables, _ta
     _table_destinations
 
 
+def _opened(path):
+    """The workbook file, opened here when given by path: it is then closed even when openpyxl
+    fails half-way through opening it (e.g. a zip archive that is not a workbook)."""
+    return open(path, "rb") if isinstance(path, (str, PathLike)) else nullcontext(path)
+
+
 def read_cell_rows_openpyxl(path: Union[str, PathLike]) -> Iterable[Sequence[Any]]:
     """Reads from an Excel workbook, yielding one row of cells at a time."""
 
-    with closing(openpyxl.load_workbook(path, read_only=True, data_only=True, keep_links=False)) as wb:
+    with _opened(path) as f, closing(
+        openpyxl.load_workbook(f, read_only=True, data_only=True, keep_links=False)
+    ) as wb:
         for ws in wb.worksheets:
             yield from ws.iter_rows(values_only=True)
 
@@ -32,7 +40,9 @@ def read_cell_rows_openpyxl(path: Union[str, PathLike]) -> Iterable[Sequence[Any
 def read_sheets(path: Union[str, PathLike]) -> Iterable[Tuple[str, Iterable[Sequence[Any]]]]:
     """Reads from an Excel workbook, yielding (sheet_name, <row iterator>)."""
 
-    with closing(openpyxl.load_workbook(path, read_only=True, data_only=True, keep_links=False)) as wb:
+    with _opened(path) as f, closing(
+        openpyxl.load_workbook(f, read_only=True, data_only=True, keep_links=False)
+    ) as wb:
         for ws in wb.worksheets:
             yield   (ws.title, ws.iter_rows(values_only=True))
 
